@@ -272,15 +272,16 @@ def trace_cfg(n_end):
 
 def validate_traces(ctx, traces, n_end, tag):
     """TLC decides whether each recorded execution is a behaviour of CommsHub."""
-    path = tlc.write_json(traces, "c19-" + tag)
-    r = tlc.run("CommsTrace", cfg_text=trace_cfg(n_end), env={"TRACE_FILE": path}, workers=8, timeout=600)
-    ctx.add_tlc("trace-" + tag, r)
     accepted = set()
-    for line in r.out.splitlines():
-        if line.startswith('<<"ACCEPT"'):
-            accepted.add(int(line.split(",")[1].strip(" >")))
-    if r.errors and not r.violated:
-        ctx.machinery("TLC error during trace validation:\n" + r.counterexample())
+    for lo in range(0, len(traces), 500):          # 500 traces (of up to 60 events) per TLC run: minutes each, whatever the tier
+        path = tlc.write_json(traces[lo:lo + 500], "c19-%s-%d" % (tag, lo))
+        r = tlc.run("CommsTrace", cfg_text=trace_cfg(n_end), env={"TRACE_FILE": path}, workers=8, timeout=1500)
+        ctx.add_tlc("trace-%s-%d" % (tag, lo), r)
+        for line in r.out.splitlines():
+            if line.startswith('<<"ACCEPT"'):
+                accepted.add(int(line.split(",")[1].strip(" >")))
+        if r.errors and not r.violated:
+            ctx.machinery("TLC error during trace validation:\n" + r.counterexample())
     bad = [t for t in traces if t["id"] not in accepted]
     for t in bad[:5]:
         k, exp = longest_prefix(t, n_end)
